@@ -13,7 +13,7 @@ logging.getLogger('formulas').setLevel(logging.CRITICAL)
 logging.getLogger('formulas.excel').setLevel(logging.CRITICAL)
 P, Q = M.P, M.Q
 F1 = __F1__          # fault of the first cell, fixed per generated copy
-NF = 10
+NF = 11
 import os, tempfile
 _DIR = tempfile.mkdtemp(prefix='c14-', dir=os.environ.get('VERIF_OUT', '/verif') + '/.work') if os.path.isdir(os.environ.get('VERIF_OUT', '/verif') + '/.work') else tempfile.mkdtemp(prefix='c14-')
 with open(os.path.join(_DIR, 'broken.xlsx'), 'wb') as _f:
@@ -34,12 +34,13 @@ def faulty(kind, healthy, arg):
             "=SUM('[b]ZZ'!A1:A2)+%s" % arg,      # 7 range on an absent sheet
             '=%s+%s' % (_BROKEN, arg),           # 8 workbook file that exists but is unreadable
             '=IF(%s>100,NONAME,OTHERNAME)+%s' % (arg, arg),   # 9 two different undefined names in one formula
+            '=MARGIN+%s' % arg,                  # 10 a DEFINED name whose own formula uses an undefined name
             ][kind]
 
 
 def expected_error(kind):
     return {1: ('#NAME?',), 2: ('#NAME?',), 3: ('#REF!',), 4: ('#REF!',), 5: ('#REF!', '#NAME?'), 6: ('#REF!',), 7: ('#REF!',),
-            8: ('#REF!',), 9: ('#REF!', '#NAME?')}[kind]
+            8: ('#REF!',), 9: ('#REF!', '#NAME?'), 10: ('#REF!', '#NAME?')}[kind]
 
 
 def build(k1, k2, k3):
@@ -54,6 +55,7 @@ def build(k1, k2, k3):
         P + 'G1': '=%sA2*2+%sA1' % (P, P),
         P + 'G2': '=IFERROR(NONAME,1)+IFERROR(OTHERNAME,2)+ISERROR(THIRDNAME)',
         P + 'H1': '=%sA1+1' % Q,
+        "'[b]'!MARGIN": '=BASERATE*2',
     }
 
 
